@@ -6,6 +6,7 @@
 static const char *harness_name() { return "c17_conv"; }
 static void harness_init() { default_bank(); }
 
+static bool g_decoy_next = false;      // set by a stage: the next open_and_load first loads another generated file on the same device
 static OPN2_MIDIPlayer *open_and_load(Case &c, Capture &cap, const std::vector<uint8_t> &file, int &rc, int presel_song = 0)
 {
     OPN2_MIDIPlayer *d = NULL;
@@ -16,7 +17,24 @@ static OPN2_MIDIPlayer *open_and_load(Case &c, Capture &cap, const std::vector<u
     { ExactBuf b(default_bank()); API("opn2_openBankData", rc = opn2_openBankData(d, b.p, (long)b.n)); }
     cap.attach(d);
     if(presel_song) API("opn2_selectSongNum", opn2_selectSongNum(d, presel_song));
+    bool decoy_used = false;
+    if(g_decoy_next)
+    {   // the device has already loaded (and briefly played) another file: nothing of it may show in what follows
+        g_decoy_next = false;
+        Rng rd(c.rng.next(), 5, 0);
+        std::vector<uint8_t> other;
+        switch(rd.below(3)) { case 0: other = gen_xmi(rd, 0, 8).bytes; break; case 1: other = gen_mus(rd, 12).bytes; break; default: { SongOpts o; o.max_tracks = 3; o.max_events = 10; Song sg = gen_song(rd, o); other = serialize_song(sg); } }
+        int rc0 = 0;
+        { ExactBuf in(other); API("opn2_openData", rc0 = opn2_openData(d, in.p, (unsigned long)in.n)); }
+        if(rc0 == 0 && rd.chance(0.5)) { double nd = 0; API("opn2_tickEvents", nd = opn2_tickEvents(d, 0.05, 1e-6)); (void)nd; }
+        cap.clear();
+        count("loads_after_another_file_on_the_same_device");
+        decoy_used = true;
+    }
     { ExactBuf in(file); API("opn2_openData", rc = opn2_openData(d, in.p, (unsigned long)in.n)); }
+    // a song number that is out of range for the file loaded at that moment is adjusted at once, so a pre-selection cannot
+    // survive the other file: the song is selected again once the file under test is loaded
+    if(decoy_used && presel_song && rc == 0) { API("opn2_selectSongNum", opn2_selectSongNum(d, presel_song)); cap.clear(); }
     return d;
 }
 
@@ -74,7 +92,9 @@ static void run_case(Case &c)
             ctx = vfmt("GMF track of %zu events, reference = format-0 SMF with division 192", song.tracks[0].ev.size());
         }
         Capture ca, cb; int rca = 0, rcb = 0;
-        OPN2_MIDIPlayer *a = open_and_load(c, ca, bare, rca), *b = open_and_load(c, cb, wrapped, rcb);
+        OPN2_MIDIPlayer *a = open_and_load(c, ca, bare, rca);
+        g_decoy_next = r.chance(0.3);      // only the instance that gets the wrapped file has a previous file behind it
+        OPN2_MIDIPlayer *b = open_and_load(c, cb, wrapped, rcb);
         if(a && b)
         {
             if(rca != 0) { c.inconclusive = true; count("inconclusive_bare_file_rejected"); }
@@ -98,6 +118,7 @@ static void run_case(Case &c)
     {
         MusScore m = gen_mus(r, (int)g_w.optnum("maxevents", 60));
         Capture cap; int rc = 0;
+        g_decoy_next = r.chance(0.4);
         OPN2_MIDIPlayer *d = open_and_load(c, cap, m.bytes, rc);
         if(!d) return;
         std::string ctx = vfmt("MUS %zu bytes, %zu events, %llu ticks, %d channels, hex %s", m.bytes.size(), m.expect.size(), (unsigned long long)m.total_ticks, m.channels_used, hexs(m.bytes, 80).c_str());
@@ -178,6 +199,7 @@ static void run_case(Case &c)
         int presel = r.chance(0.5) ? 0 : (int)r.below((uint32_t)nsongs);
         int later = r.chance(0.4) ? (int)r.below((uint32_t)nsongs) : -1;
         Capture cap; int rc = 0;
+        g_decoy_next = r.chance(0.4);
         OPN2_MIDIPlayer *d = open_and_load(c, cap, x.bytes, rc, presel);
         if(!d) return;
         std::string ctx = vfmt("XMI %zu bytes, %d songs, preselected %d, switched to %d", x.bytes.size(), nsongs, presel, later);
